@@ -4,6 +4,7 @@ import ISnap.Driver.AssignCmd
 /-
   `(callassign (flags …) (kw (NAME EXPR)…) (fields (NAME VAL DFLT)…))`
       → `(out (cats …) (kw (NAME EXPR)…) (merged (NAME VAL)…))`
+  `(callassign (flags …) (pos EXPR…) (kw …) (fields …))` → the same plus `(pos EXPR…)` (Model: `assignCallPos`)
 -/
 namespace ISnap.CallCmd
 open ISnap Sexp Assign CallAssign
@@ -22,6 +23,20 @@ def run (args : List Sexp) : Option Sexp := do
     some (.list [.atom "out", SiteCmd.catsS r.cats,
       .list (.atom "kw" :: r.kw.map (fun p => .list [ofNat p.1, AssignCmd.exprS p.2])),
       .list (.atom "merged" :: r.merged.map (fun p => .list [ofNat p.1, AssignCmd.valS p.2]))])
+  | [.list (.atom "flags" :: fs), .list (.atom "pos" :: ps), .list (.atom "kw" :: kws), .list (.atom "fields" :: fls)] =>
+    let F ← SiteCmd.cats? fs
+    let pos ← ps.mapM AssignCmd.expr?
+    let kw ← kws.mapM (fun k => match k with
+      | .list [n, e] => do some ((← nat? n), (← AssignCmd.expr? e))
+      | _ => none)
+    let fields ← fls.mapM (fun f => match f with
+      | .list [n, v, d] => do some ((← nat? n), (← AssignCmd.val? v), (← bool? d))
+      | _ => none)
+    let r := assignCallPos F pos kw fields
+    some (.list [.atom "out", SiteCmd.catsS r.cats,
+      .list (.atom "kw" :: r.kw.map (fun p => .list [ofNat p.1, AssignCmd.exprS p.2])),
+      .list (.atom "merged" :: r.merged.map (fun p => .list [ofNat p.1, AssignCmd.valS p.2])),
+      .list (.atom "pos" :: r.pos.map AssignCmd.exprS)])
   | _ => none
 
 end ISnap.CallCmd
